@@ -216,6 +216,8 @@ class Function:
         if k in TRANSPARENT:
             return C(nd["ch"][0])
         if k == "Cast":
+            if fold and "cv" in nd and isinstance(nd["cv"], int):
+                return str(nd["cv"])
             if casts:
                 return "(%s)%s" % (nd.get("ct", nd["t"]), C(nd["ch"][0]))
             return C(nd["ch"][0])
@@ -403,6 +405,12 @@ class CFG:
             for idx, e in enumerate(b["elems"]):
                 if e >= 0 and e not in self.pos:
                     self.pos[e] = (b["id"], idx)
+        # terminators (break / continue / goto / return-less jumps) are not
+        # elements: position them at the end of their block
+        for b in c["blocks"]:
+            t = b.get("term")
+            if t is not None and t >= 0 and t not in self.pos and fn.nodes[t]["k"] in ("Break", "Continue", "Goto"):
+                self.pos[t] = (b["id"], len(b["elems"]))
         self._dom = None
         self._pdom = None
         self._reach = None
